@@ -671,7 +671,7 @@ def replay(rec):
 
 CLAIM = {
     "tech": "Coq proof over a Gallina model of the text setters/getters (all strings, all prior bodies, all operation histories) + extracted-model correspondence on real shapes/cells + independent oracle incl. save/re-open",
-    "text": "18 theorems closed under the global context: read-back at run/paragraph/frame/cell level equals the documented character-level translation for every string and every prior body; paragraph count, line-break count, no empty runs, pPr/endParaRPr/bodyPr untouched, whitespace verbatim, schema order invariant over any history (fold over operations). The model is tied to text/text.py, oxml/text.py and table.py by running ~32k (quick) / ~211k (thorough) assignments and histories on real lxml-backed objects and on the extracted model, comparing read-backs and the a:p/a:r/a:br/a:fld skeleton.",
-    "note": "save/re-open enters the proof as the hypothesis reparse (ser b) = b and is exercised at run time (1 or 3 cycles per case); property elements are opaque ids; code points outside XML 1.0 are rejected by lxml and not compared.",
+    "text": "20 theorems closed under the global context: read-back at run/paragraph/frame/cell level equals the documented character-level translation for every string and every prior body; paragraph count, line-break count, no empty runs, pPr/endParaRPr/bodyPr untouched, whitespace verbatim, schema order invariant over any history (fold over operations). The model is tied to text/text.py, oxml/text.py and table.py by running ~32k (quick) / ~211k (thorough) assignments and histories on real lxml-backed objects and on the extracted model, comparing read-backs and the a:p/a:r/a:br/a:fld skeleton. The leaf level of save / re-open is a theorem as well: the text of an a:t written with libxml2's text escaping is read back exactly by the parser model of C05, which contains libxml2's blank-text removal (C04_reopen_text_leaf), tied to the real serialiser and parser on 1,500 / 20,000 strings.",
+    "note": "save/re-open of a whole body enters the proof as the hypothesis reparse (ser b) = b (its text-leaf level is proved against the parser model, the tree level is not modelled) and is exercised at run time (1 or 3 cycles per case); property elements are opaque ids; code points outside XML 1.0 are rejected by lxml and not compared.",
     "ref": "6/C04",
 }
